@@ -345,6 +345,36 @@ func c02Defaults(c *caseCtx) {
 	c.distinct(fmt.Sprintf("defaults|%d", c.idx))
 }
 
+// very long generated series (millions of levels: seconds of work): the answer does not depend on how fast the machine is
+func c02LongSeries(c *caseCtx) {
+	g := validBase("satisfactionHeuristic", c.rng)
+	mp := g.M["methodParameters"].(M)
+	mp["function"] = "idealSubtractiveCoefficient"
+	mp["params"] = M{"coefficient": []float64{2e-7, 3e-7}[c.idx%2], "minValue": 0.01, "maxValue": 1.0}
+	// one alternative is accepted early, one very late, one never
+	g.M["knownAlternatives"] = []interface{}{
+		M{"id": "a0", "criteria": M{"c0": 38.0, "c1": 39.0, "c2": 1.0}}, M{"id": "a1", "criteria": M{"c0": 3.0, "c1": 2.0, "c2": 38.0}}, M{"id": "a2", "criteria": M{"c0": 0.0, "c1": 0.0, "c2": 40.0}}, M{"id": "a3", "criteria": M{"c0": 40.0, "c1": 40.0, "c2": 0.0}}}
+	g.M["choseToMake"] = []interface{}{"a0", "a1", "a2"}
+	body := g.body()
+	first := decide(body, false)
+	c.count("evaluations", 1)
+	for rep := 1; rep < 3; rep++ {
+		d := decide(body, false)
+		c.count("evaluations", 1)
+		if d.OK != first.OK || (d.OK && !bytes.Equal(d.JSON, first.JSON)) {
+			c.violate("bytes-not-repeatable", fmt.Sprintf("repetition %d of a request with millions of generated levels gives a different response", rep), M{"request": g.M, "first": string(first.JSON), "again": string(d.JSON)})
+			return
+		}
+	}
+	if first.OK {
+		c.count("long_series_repeated", 1)
+		c.count("nontrivial", 1)
+		c.distinct(fmt.Sprintf("longSeries|%d", c.idx))
+	} else {
+		c.count("rejected", 1)
+	}
+}
+
 // large problems: implementations may switch strategy (batching, worker goroutines) above a size threshold
 func c02Large(c *caseCtx) {
 	method := []string{"weightedSum", "owa", "majorityHeuristic", "satisfactionHeuristic", "aspectEliminationHeuristic", "electreIII"}[c.idx%6]
@@ -386,6 +416,8 @@ func init() {
 			{name: "inProcess", n: tierN(7000, 150000), unit: 1750, run: c02InProcess, floors: map[string]int64{"accepted_repeated": 5000, "rejected_repeated": 300}},
 			{name: "mapOrder", n: tierN(4000, 40000), unit: 1000, run: c02MapOrder, floors: map[string]int64{"decimal_weight_requests_repeated": 3000},
 				note: ">=3 criteria with weights / k in 0.05 steps, integer performances and thresholds, 8 (thorough 16) repetitions each: a total summed in map order differs in the last bit between calls and flips comparisons that sit exactly on a boundary"},
+			{name: "longSeries", n: tierN(2, 6), unit: 1, run: c02LongSeries, floors: map[string]int64{"long_series_repeated": 2},
+				note: "satisfaction heuristic with a subtractive coefficient of 2e-7 / 3e-7 (3 to 5 million levels, seconds of work), 3 repetitions"},
 			{name: "large", n: tierN(48, 600), unit: 4, run: c02Large, floors: map[string]int64{"large_repeated": 30},
 				note: "requests with 256..755 alternatives (ELECTRE 130..189) and 1..3 fired biases, 3 repetitions each"},
 			{name: "defaults", n: tierN(2, 6), unit: 1, run: c02Defaults, floors: map[string]int64{"default_requests_compared_across_starts": 140},
